@@ -41,6 +41,11 @@ EMBS_THOROUGH = EMBS_QUICK + [Emb(-6, (1.0, 1.0), True), Emb(10, (0.0, 0.0)), Em
                               Emb(7, (3.0e6, 5.0e5))]
 
 
+# projection / point-to-segment have no absolute tolerance other than the 1e-8 zero-length test, so they are
+# also replayed at small scales (planar coordinates in degrees or kilometres: edges of 1e-4 .. 1e-6 units)
+EMBS_TINY = [Emb(-13, (50.0, 4.0)), Emb(-16), Emb(-20, (0.5, -0.25))]
+
+
 def dist(p, q):
     return math.hypot(p[0] - q[0], p[1] - q[1])
 
@@ -119,8 +124,9 @@ def run_c13(chk):
              'rational answers from spec/Geometry.tla, replayed into dist_euclidean under scalings 2^k, '
              'exactly representable translations and the axis swap; non-trivial = degenerate class '
              '(zero-length, parallel, collinear, touching, crossing) or clamped projection')
-    chk.assume('coordinate differences >= 2^-6: the library treats |x| <= 1e-8 as zero (np.isclose/allclose '
-               'atol), taken as the resolution of the API')
+    chk.assume('segment-to-segment: coordinate differences >= 2^-6 (its parallel test compares a cross product with an '
+               'absolute 1e-8); projection / point-to-segment: down to 2^-20 (edges of 1e-6 units; the zero-length test '
+               'is |dx|,|dy| <= 1e-8)')
     chk.assume('TLC/SANY, CommunityModules Json; float <-> rational comparison tolerance 64 ulp of the largest '
                'coordinate + 1e-9 * scale')
     # lemmas of the specification itself (design level)
@@ -151,13 +157,13 @@ def run_c13(chk):
     nontriv = 0
     for case in rp.json:
         nontriv += case['cls'] != 'inside'
-        for emb in embs:
+        for emb in embs + EMBS_TINY:
             bad = check_pt(de, case, emb)
             if bad:
                 chk.violation('project / point-to-segment: ' + bad[0],
                               {'kind': 'pt', 'case': case, 'emb': emb.desc(), 'got': bad[1]},
                               sig={'site': 'dist_euclidean.project', 'cls': case['cls']})
-    chk.count('pt', evaluations=len(rp.json) * len(embs), nontrivial=nontriv, traces=len(rp.json) * len(embs))
+    chk.count('pt', evaluations=len(rp.json) * (len(embs) + len(EMBS_TINY)), nontrivial=nontriv, traces=len(rp.json) * (len(embs) + len(EMBS_TINY)))
     chk.sample({'kind': 'pt', 'case': rp.json[len(rp.json) // 2], 'emb': embs[2].desc()})
     # box contains the disc
     nb = 0
@@ -260,6 +266,8 @@ def tangent_place(p, s, anchor):
     lat0, lon0 = anchor
     lat = lat0 + math.degrees(p[0] * s / R_EARTH)
     lon = lon0 + math.degrees(p[1] * s / (R_EARTH * math.cos(math.radians(lat0))))
+    if lon > 180.0 or lon <= -180.0:      # maps may straddle the antimeridian: longitudes are given in (-180, 180]
+        lon = ((lon + 180.0) % 360.0) - 180.0
     return (lat, lon)
 
 
